@@ -31,6 +31,17 @@ func (mr *memdbReleaser) Release() {
 func (db *DB) newRawIterator(auxm *memDB, auxt tFiles, slice *util.Range, ro *opt.ReadOptions) iterator.Iterator {
 	strict := opt.GetStrict(db.s.o.Options, ro, opt.StrictReader)
 	em, fm := db.getMems()
+	if em == nil {
+		// The DB was closed after the caller's db.ok() check: getMems returns a
+		// nil effective memdb only then.
+		if fm != nil {
+			fm.decref()
+		}
+		if auxm != nil {
+			auxm.decref()
+		}
+		return iterator.NewEmptyIterator(ErrClosed)
+	}
 	verifYield(3)
 	v := db.s.version()
 
